@@ -17,9 +17,11 @@ MANIFEST = dict(
     level="model_checking",
     engine="seqx (explicit-state BFS with state merging on the real FSM)",
     technique="explicit-state breadth-first model checking of the real ts-meta raft FSM (same graph as C15); in every transition the "
-              "well-formedness invariants are evaluated on the live meta.Data before and after the command",
+              "well-formedness invariants are evaluated on the live meta.Data before and after the command; every transition is executed "
+              "twice, with all map ranges of the two meta packages in ascending and in descending key order (map-order adversary of C15)",
     text="After every command of every sequence up to the depth bound: live shard groups per (policy, engine) disjoint, non-empty, sorted; "
          "shard-group/shard/index-group/index/measurement ids unique, never handed out twice, not above their counters; shards refer to "
          "existing indexes and owner partitions; default policy exists; a failed command leaves the dump unchanged.",
-    note="Trusts: state merging on the canonical dump; the ghost id set is carried along shortest paths only.",
+    note="Trusts: state merging on the canonical dump; the ghost id set is carried along shortest paths only; of all map iteration "
+         "orders only ascending and descending keys are exercised.",
 )
